@@ -48,7 +48,11 @@ namespace Givaro {
         r0=m;
         t0=0;
         r1=f;
-        if (f<0) r1+= m;
+        if (f<0) {
+            // bring any negative residue into [0,m): a single "+= m" left r1 negative for f < -m
+            r1 %= m;
+            if (r1<0) r1+= m;
+        }
         t1=1;
         while(r1>=k)
         {
